@@ -32,11 +32,14 @@ func propC12(w *World, r *Report) {
 	for _, a := range boundsAssumptions {
 		r.Assumes(a)
 	}
-	RunLosslessFor(w, r, "C12", newBoundsRun(w))
+	br12 := newBoundsRun(w)
+	RunLosslessFor(w, r, "C12", br12)
+	runNarrowBoundIn(w, r, br12, "/hmtx", "/head", "/os2", "/post", "/maxp")
 	RunLosslessControls(r)
 	RunBBoxCorners(w, r)
 	RunExtremumInit(w, r, losslessFuncs(w, r, "C12"))
 	r.Floor("extremuminit", 3)
+	r.Floor("extremumdomain", 4)
 	RunTimeInverse(w, r)
 	{
 		var hm []*ssa.Function
@@ -141,6 +144,7 @@ func RunExtremumInit(w *World, r *Report, fns []*ssa.Function) {
 				if cmpGuard == nil {
 					continue
 				}
+				checkExtremumDomain(w, r, fn, loops, b, st, fa, cmpGuard)
 				key := r.MkKey("extremuminit", fnName(fn), "running extremum "+fieldName(fa))
 				if len(b.Preds) >= 2 {
 					r.OK("extremuminit", key, w.Pos(st.Pos()), "the first contributing element is taken unconditionally")
@@ -535,4 +539,91 @@ func splitIdx(s string) (string, string) {
 		return s[:i], s[i+1:]
 	}
 	return "", s
+}
+
+// extremumDomain transcribes the OpenType definitions of the derived hhea
+// fields: advanceWidthMax is the maximum over all entries of hmtx;
+// minLeftSideBearing, minRightSideBearing and xMaxExtent are taken over the
+// glyphs that have contours only.
+var extremumDomain = map[string]bool{ // field -> "blank glyphs are skipped"
+	"AdvanceWidthMax":     false,
+	"MinLeftSideBearing":  true,
+	"MinRightSideBearing": true,
+	"XMaxExtent":          true,
+}
+
+// checkExtremumDomain: which elements take part in a running extremum.  The
+// update block is control-dependent, inside the loop, on the comparison with
+// the running value (and the `first` flag); any further condition skips
+// elements.  advanceWidthMax must have none, the side-bearing extrema must
+// skip glyphs whose extent IsZero().
+func checkExtremumDomain(w *World, r *Report, fn *ssa.Function, loops []*natLoop, b *ssa.BasicBlock, st *ssa.Store, fa *ssa.FieldAddr, cmpGuard *ssa.BinOp) {
+	name := fieldName(fa)
+	wantSkip, known := extremumDomain[name]
+	if !known {
+		return
+	}
+	var loop *natLoop
+	for _, l := range loops {
+		if l.body[b] && (loop == nil || len(l.body) < len(loop.body)) {
+			loop = l
+		}
+	}
+	if loop == nil {
+		return
+	}
+	ci := ctrlDeps(fn)
+	var skips []string
+	blank := false
+	for _, d := range ci.dep[b] {
+		if !loop.body[d] || d == loop.head {
+			continue
+		}
+		ifi, ok := d.Instrs[len(d.Instrs)-1].(*ssa.If)
+		if !ok || ifi.Cond == ssa.Value(cmpGuard) {
+			continue
+		}
+		// the `first` flag: a boolean that is not computed from data
+		if isLocalBool(ifi.Cond) {
+			continue
+		}
+		// a nil test of a loop-invariant slice decides nothing per element
+		if bo, ok := ifi.Cond.(*ssa.BinOp); ok && (isNilConst(bo.X) || isNilConst(bo.Y)) {
+			continue
+		}
+		if call, ok := ifi.Cond.(*ssa.Call); ok && call.Call.StaticCallee() != nil && call.Call.StaticCallee().Name() == "IsZero" {
+			blank = true
+		}
+		skips = append(skips, w.Pos(ifi.Cond.Pos()))
+	}
+	key := r.MkKey("extremumdomain", fnName(fn), "elements of "+name)
+	switch {
+	case !wantSkip && len(skips) > 0:
+		r.Fail("extremumdomain", key, w.Pos(st.Pos()), fmt.Sprintf("%s is defined as the maximum over all entries, but the update is skipped for some elements (condition at %s): an element that is skipped and larger than all others is lost", name, strings.Join(skips, ", ")), nil)
+	case wantSkip && !blank:
+		r.Fail("extremumdomain", key, w.Pos(st.Pos()), fmt.Sprintf("%s is defined over the glyphs that have contours, but no test of an empty extent (IsZero) guards the update: blank glyphs take part", name), nil)
+	default:
+		r.OK("extremumdomain", key, w.Pos(st.Pos()), "the elements that take part are those of the definition")
+	}
+}
+
+func isLocalBool(v ssa.Value) bool {
+	switch x := v.(type) {
+	case *ssa.Phi:
+		for _, e := range x.Edges {
+			if _, ok := e.(*ssa.Const); !ok && e != ssa.Value(x) {
+				if p2, ok := e.(*ssa.Phi); !ok || !isLocalBool(p2) {
+					return false
+				}
+			}
+		}
+		return true
+	case *ssa.UnOp:
+		if al, ok := x.X.(*ssa.Alloc); ok && x.Op == token.MUL {
+			_ = al
+			b, ok := x.Type().Underlying().(*types.Basic)
+			return ok && b.Kind() == types.Bool
+		}
+	}
+	return false
 }
